@@ -8,6 +8,7 @@ REQUIRED_BRANCHES = [
                                          # did not have AND found documents there = a conflicting batch occupied the window
     "stale-root-seen",                   # a call was prepared against an older root than the one it was introduced into
     "gate-released-by-an-introduction",  # harness: a call held in prepareSegment saw another batch introduced meanwhile
+    "forced-order-achieved",             # deterministic scenario: all calls read one root and were introduced in the forced order
     "conflicting-overlapping-calls",     # two calls overlapping in time, one adding a document under an id the other names
     "overlapping-calls",
     "unobserved-introduction",           # a batch without documents (no new segment): placed by the checker's search
